@@ -149,6 +149,16 @@ func exercise(c c10Case, res *c10Result, report func(kind, call, detail string))
 	if rng.Intn(6) == 0 {
 		extra = append(extra, regexp2.OptionMaxBacktrackingStackSize([]int{0, 1, 5, 64, 1000}[rng.Intn(5)]))
 	}
+	// the buffer and replacement caches switched off or made tiny: every call then takes the un-pooled paths
+	if rng.Intn(6) == 0 {
+		sizes := []int{0, 1, 16, 512, -1}
+		extra = append(extra,
+			regexp2.OptionMaxCachedRuneBufferLength(sizes[rng.Intn(5)]),
+			regexp2.OptionMaxCachedReplaceBufferLength(sizes[rng.Intn(5)]),
+			regexp2.OptionMaxCachedReplacerDataEntries(sizes[rng.Intn(5)]),
+			regexp2.OptionMaxCachedReplacerDataBytes(sizes[rng.Intn(5)]))
+		res.Counters["cases_with_cache_limits"]++
+	}
 	mustOpts := []regexp2.CompileOption{regexp2.RegexOptions(c.Opts)}
 	if c.COpts&mon.COCodeGen != 0 {
 		mustOpts = append(mustOpts, regexp2.OptionIsCodeGen())
@@ -318,6 +328,48 @@ func exercise(c c10Case, res *c10Result, report func(kind, call, detail string))
 			n := n
 			timed("Split", func() { _, err := re.Split(in, n); chk("Split", err, true) })
 		}
+	}
+	// one text beyond the largest pooled buffer class (256 Ki runes): the entry points that decode or
+	// build into pooled buffers
+	if rng.Intn(40) == 0 && len(inputs) > 0 && !budgetGone {
+		unit := inputs[rng.Intn(len(inputs))]
+		if unit == "" {
+			unit = "ab \n"
+		}
+		big := strings.Repeat(unit, 300000/len(unit)+1)
+		bigRunes := []rune(big)
+		curRunes = len(bigRunes)
+		res.Counters["cases_with_300KB_input"]++
+		timed("MatchString", func() { _, err := re.MatchString(big); chk("MatchString(300KB)", err, false) })
+		timed("MatchRunes", func() { _, err := re.MatchRunes(bigRunes); chk("MatchRunes(300KB)", err, false) })
+		timed("FindAllStringIndex", func() { _, err := re.FindAllStringIndex(big, 3); chk("FindAllStringIndex(300KB)", err, false) })
+		timed("FindAllRunesIndex", func() { _, err := re.FindAllRunesIndex(bigRunes, 3); chk("FindAllRunesIndex(300KB)", err, false) })
+		timed("FindStringMatchStartingAt", func() {
+			m, err := re.FindStringMatchStartingAt(big, len(big)/2)
+			chk("FindStringMatchStartingAt(300KB)", err, true)
+			if m != nil {
+				_ = m.String()
+				m.Groups()
+			}
+		})
+		timed("Replace", func() {
+			_, err := re.Replace(big, "[$0]", -1, 2)
+			if err != nil && !allowedMatchErr(err) && !isArgErr(err) && !isParseErr(err) {
+				report("error-class", "Replace(300KB)", err.Error())
+			}
+		})
+		timed("Split", func() { _, err := re.Split(big, 3); chk("Split(300KB)", err, true) })
+		timed("compat", func() {
+			guard("compat methods(300KB)", func(p any) bool {
+				err, ok := p.(error)
+				return ok && (mon.IsTimeout(err) || mon.IsStackLimit(err))
+			}, func() {
+				cw := compat.Wrap(re)
+				cw.MatchString(big)
+				cw.FindStringIndex(big)
+				cw.FindAllStringIndex(big, 2)
+			})
+		})
 	}
 	// lookups with hostile arguments, marshalling
 	guard("group lookups", nil, func() {
@@ -543,6 +595,25 @@ var c10Regressions = map[string]func() string{
 		}
 		return ""
 	},
+	"leading-zero-group-maintain-order": func() string {
+		for _, p := range []string{`(?<01>b)(c)`, `(a)(?<02>b)(c)`, `(?'007'b)|(c)`} {
+			re, err := regexp2.Compile(p, regexp2.None, regexp2.OptionMaintainCaptureOrder())
+			if err != nil {
+				if !isParseErr(err) {
+					return p + ": " + err.Error()
+				}
+				continue
+			}
+			m, err := re.FindStringMatch("abc")
+			if err != nil {
+				return p + ": " + err.Error()
+			}
+			if m != nil {
+				m.Groups()
+			}
+		}
+		return ""
+	},
 	"rtl-split": func() string {
 		re := regexp2.MustCompile(`,`, regexp2.RightToLeft)
 		r, err := re.Split("a,b,c", -1)
@@ -712,6 +783,7 @@ func runC10(r *core.Run) int {
 	for _, s := range merged.Samples {
 		l.Sample(s)
 	}
+	var suspects []string
 	for _, a := range merged.Anomalies {
 		switch a.Kind {
 		case "slow-compile", "slow-match", "hang-suspect":
@@ -743,12 +815,16 @@ func runC10(r *core.Run) int {
 				l.Violate(core.Violation{Kind: "bounded-progress", Detail: a.Detail + "; reproduced 3/3 alone: " + oneLineN(last, 300), Witness: core.Witness{Pattern: unhex(a.Case.Pattern), Options: a.Case.Opts, COpts: a.Case.COpts, Args: map[string]any{"case": a.Case}}})
 			} else {
 				l.Inconclusive("slow-case-not-reproduced")
+				suspects = append(suspects, fmt.Sprintf("%s in %s: %s (slow alone in %d of 3 re-runs; pattern %q options %#x)", a.Kind, a.Call, oneLineN(a.Detail, 200), slow, oneLineN(unhex(a.Case.Pattern), 120), a.Case.Opts))
 			}
 		default:
 			l.Violate(core.Violation{Kind: a.Kind, Detail: a.Call + ": " + a.Detail, Witness: core.Witness{Pattern: unhex(a.Case.Pattern), Options: a.Case.Opts, COpts: a.Case.COpts, Args: map[string]any{"case": a.Case}}})
 		}
 	}
 	l.Done()
+	if len(suspects) > 0 {
+		r.Extras["timing_suspects_not_reproduced"] = suspects
+	}
 	r.Extras["slowest_case"] = map[string]any{"ms": merged.SlowestMs, "case": merged.SlowestPat}
 	// thorough: coverage-guided fuzzing
 	if !r.Quick() {
@@ -756,7 +832,7 @@ func runC10(r *core.Run) int {
 	}
 	r.Extras["bounds"] = map[string]any{"cases": total, "pattern_bytes": "<= 12000", "compile_bound": compileBound.String(), "timed_match_bound": matchBound.String() + " with MatchTimeout=100ms and a 1 ms clock", "watchdog": caseWatchdog.String()}
 	return r.Finish(
-		"deterministic structure-aware mutation (token splice, unbalanced brackets/braces/parens, option letters, huge and overflowing counts, \\p names, number-like group names, nesting up to 2000, non-UTF-8 bytes, NUL) of the harvested corpus (parser fuzz corpus, test patterns, PCRE/RE2/Rust corpora) under random subsets of all option bits and compile options; for each pattern that compiles every exported operation (Match*, Find*, StartingAt with in- and out-of-range offsets, FindAll, FindNextMatch to exhaustion, Replace/ReplaceFunc/Split with hostile replacement strings and counts, Escape/Unescape, group lookups with hostile arguments, Marshal/UnmarshalText, every compat method) on hostile inputs, in child processes that log each case before running it; a share of the cases also under a -race build (checkptr); thorough adds coverage-guided go test -fuzz targets; evaluation = one pattern case; non-trivial = case whose pattern compiled and was exercised",
+		"deterministic structure-aware mutation (token splice, unbalanced brackets/braces/parens, option letters, huge and overflowing counts, \\p names, number-like group names, nesting up to 2000, non-UTF-8 bytes, NUL) of the harvested corpus (parser fuzz corpus, test patterns, PCRE/RE2/Rust corpora) under random subsets of all option bits and compile options (code generation mode, capture order, ASCII bitmap off, backtracking stack limits, and the rune-buffer / replace-buffer / replacer caches switched off or made tiny); for each pattern that compiles every exported operation (Match*, Find*, StartingAt with in- and out-of-range offsets, FindAll, FindNextMatch to exhaustion, Replace/ReplaceFunc/Split with hostile replacement strings and counts, Escape/Unescape, group lookups with hostile arguments, Marshal/UnmarshalText, every compat method) on hostile inputs, one case in forty also on a text of 300 KB (beyond the largest pooled buffer class), in child processes that log each case before running it; a share of the cases also under a -race build (checkptr); thorough adds coverage-guided go test -fuzz targets; evaluation = one pattern case; non-trivial = case whose pattern compiled and was exercised",
 		[]string{"panics are recovered per call in the child; process-fatal errors are attributed to the last logged case", "timing bounds are suspects re-run alone three times", "stack exhaustion from megabyte-deep nesting is out of reach (patterns <= 12 KB)"},
 		map[string]int64{"evaluations": 5000, "distinct_nontrivial": 1000, "api_calls": 100000})
 }
